@@ -43,28 +43,34 @@ def check(tr, hist, k, where):
 
 
 def readmask_task(task):
-    """Statistics are read only at chosen times: every read mask over a position-coded stream (a tracker that buffers
-    updates lazily must still report the last k values whenever it is asked)."""
+    """Statistics are read only at chosen times: every read mask over a position-coded stream, and every read mask over
+    EVERY stream of a small alphabet (so that the newest value, the write phase or the window sum at two reads may
+    coincide while the window content differs): a tracker that buffers updates lazily or caches what it last reported
+    must still report the last k values whenever it is asked."""
+    import itertools
     from ixai.utils.tracker import SlidingWindowTracker
-    _, k, L = task
+    _, k, L = task[:3]
+    alphabet = task[3] if len(task) > 3 else None
     n = 0
     viol = []
+    streams = [None] if alphabet is None else itertools.product(alphabet, repeat=L)
     try:
-        for mask in range(1 << L):
-            tr = SlidingWindowTracker(k)
-            hist = []
-            for t in range(L):
-                v = float(3 ** (t % 20) + t)
-                tr.update(v)
-                hist.append(v)
-                if mask >> t & 1 or t == L - 1:
-                    n += 1
-                    check(tr, hist, k, f"SlidingWindowTracker({k}) read after updates {[i + 1 for i in range(t + 1) if mask >> i & 1 or i == t]} "
-                                       f"of the stream {hist}")
+        for stream in streams:
+            for mask in range(1 << L):
+                tr = SlidingWindowTracker(k)
+                hist = []
+                for t in range(L):
+                    v = float(3 ** (t % 20) + t) if stream is None else stream[t]
+                    tr.update(v)
+                    hist.append(v)
+                    if mask >> t & 1 or t == L - 1:
+                        n += 1
+                        check(tr, hist, k, f"SlidingWindowTracker({k}) read after updates {[i + 1 for i in range(t + 1) if mask >> i & 1 or i == t]} "
+                                           f"of the stream {hist}")
     except Exception as e:
         v = e if isinstance(e, Violation) else choice.library_exception(e, f'for SlidingWindowTracker({k})')
         viol.append((v.key, v.what, {}, ()))
-    return dict(task=list(task), transitions=n, states=1 << L, violations=viol)
+    return dict(task=list(task), transitions=n, states=(1 << L) * (1 if alphabet is None else len(alphabet) ** L), violations=viol)
 
 
 def run_task(task):
@@ -120,6 +126,11 @@ def plan(tier):
     tasks.append((5, (1, 0), 12, 31))
     for k in (2, 3, 4):
         tasks.append(('readmask', k, 3 * k + 1 if (deep or k < 4) else 11))
+    # every read schedule x every stream over a small alphabet (equal newest values / equal sums at two reads)
+    tasks.append(('readmask', 2, 7 if deep else 6, (0, 1)))
+    tasks.append(('readmask', 3, 8 if deep else 7, (0, 1)))
+    tasks.append(('readmask', 2, 5, (1, 0, -2)))
+    tasks.append(('readmask', 4, 9 if deep else 7, (0, 1)))
     tasks.append((2, (1e9, 1e9 + 0.1, 1e9 + 0.2), 6 if deep else 5, 7))      # large offset, small spread
     tasks.append((3, (1e9, 1e9 + 0.1, -1e9), 7 if deep else 6, 7))
     # values supplied as narrow NumPy floats (whose squares leave the range of their own type) and mixed with Python floats
